@@ -3,7 +3,7 @@
 # worktree (repository tests pass with it; its demonstration fails with it and passes without it) and files
 # it under /verif/seeded/<name>/ .
 set -u
-WT="$1"; NAME="$2"; S="$WT/_seed"; OUT="/verif/seeded/$NAME"
+WT="$1"; NAME="$2"; S="$WT/${3:-_seed}"; OUT="/verif/seeded/$NAME"
 cd "$WT" || exit 2
 git checkout -q -- src 2>/dev/null; rm -f tests/seed_demo.rs
 git apply --check "$S/patch.diff" || { echo "patch does not apply"; exit 1; }
